@@ -88,7 +88,7 @@ func rejected(s Script, tr Trace) string {
 	if tr.NewErr != "" {
 		return "configuration rejected by the constructor"
 	}
-	return wedged(s, tr)
+	return ""
 }
 
 var allDiv = []string{"fair", "rate", "fairlow", "square"}
